@@ -16,11 +16,11 @@ def suites(tier):
     q = tier == "quick"
     jobs = []
     for cfg in product(cycle=[0, 1], reverse=[0, 1]):
-        cfg.update(nmax=3 if q else 5, lim=4 if q else 7)
+        cfg.update(nmax=3 if q else 7, lim=4 if q else 9)
         jobs.append(dict(id=jid("nav", cfg), func="zzH_C09_nav", cfg=cfg))
-    cfg = dict(steps=3 if q else 4)
+    cfg = dict(steps=3 if q else 6)
     jobs.append(dict(id=jid("sel", cfg), func="zzH_C09_sel", cfg=cfg))
-    cfg = dict(nmax=3 if q else 5)
+    cfg = dict(nmax=3 if q else 7)
     jobs.append(dict(id=jid("del", cfg), func="zzH_C09_del", cfg=cfg))
     jobs.append(dict(id="update", func="zzH_C09_update", cfg={}))
     return [src_suite("src", jobs)]
